@@ -228,3 +228,52 @@ for _ks in [(k,) for k in _KINDS] + [("IRConst", "IRArith"), ("IRMemRead", "IREn
         uses={"ConstantPropagationOptimizer._references_node": "inline", "fn:_operands": "inline", "fn:_map_operands": "inline", "fn:collect": "inline"},
         dynamic_types={"self": {"dead_nodes": ty.TSet(ty.Str)}},
         properties=("C10", "C01"), min_obligations=1, no_replay=True, note=f"operation list of kinds {'+'.join(_ks)} (bounded list length {len(_ks)})"))
+
+# =================================================================================================
+# ConnectionPlanner._apply_mst_to_source_fanout: replacing the star S -> {X, Y} by a spanning tree registers the colour of the
+# LOGICAL edges S->X, S->Y (both directions) and of every tree hop that has no colour yet — and never changes the colour
+# already recorded for a real edge that happens to coincide with a hop (X -> Y of another signal group on the other colour).
+# Concrete scenario (3 entities, hop X-Y pre-coloured): bounded structure.
+# =================================================================================================
+from pyvc.values import Opaque as _Opq2  # noqa: E402
+
+CPL = "dsl_compiler/src/layout/connection_planner.py::ConnectionPlanner."
+_OP2 = ty.TOpaque("x")
+mst_tree = Contract(qualname=CPL + "_build_minimum_spanning_tree", params={"self": _OP2, "entity_ids": _OP2},
+                    effect=lambda ex, a: [("S", "X"), ("X", "Y")], verify=False, note="the tree of this scenario: S - X - Y")
+route_edge = Contract(qualname=CPL + "_route_mst_edge", params={"self": _OP2, "ent_a": _OP2, "ent_b": _OP2, "signal_name": _OP2, "wire_color": _OP2,
+                                                                "side_a": _OP2, "side_b": _OP2, "network_id": _OP2}, effect=lambda ex, a: True, verify=False, note="routing succeeds")
+
+
+def _mst_post(a, res):
+    d = a.self._edge_wire_colors
+    sig, col = "signal-A", "red"
+    want = {("S", "X", sig): col, ("X", "S", sig): col, ("S", "Y", sig): col, ("Y", "S", sig): col,
+            ("X", "Y", sig): "green",            # the real edge X -> Y of the other group keeps ITS colour
+            ("Y", "X", sig): col,                # the reverse hop had no colour: it gets the tree's
+            ("Q", "R", "signal-B"): "green"}     # unrelated entries untouched
+    return d == want and res is True
+
+
+def _placement_eff(ex, a):
+    pos = {"S": (0.0, 0.0), "X": (2.0, 0.0), "Y": (4.0, 0.0)}[a.entity_id]
+    p = SObj(["EntityPlacement"], "plc_" + a.entity_id, lazy=False)
+    p._fields["position"] = pos
+    return p
+
+
+get_plc = Contract(qualname="dsl_compiler/src/layout/layout_plan.py::LayoutPlan.get_placement", params={"self": _OP2, "entity_id": _OP2}, effect=_placement_eff, verify=False, note="scenario positions")
+mst_fanout = Contract(
+    qualname=CPL + "_apply_mst_to_source_fanout",
+    params={"self": ty.TObj("ConnectionPlanner", only=("ConnectionPlanner",)), "source_id": ty.TConcrete("S"), "sink_ids": ty.TConcrete(["X", "Y"]),
+            "signal_name": ty.TConcrete("signal-A"), "wire_color": ty.TConcrete("red")},
+    ensures=[("logical edges and uncoloured hops get the tree's colour; an already coloured real edge keeps its colour", _mst_post)],
+    uses={"ConnectionPlanner._build_minimum_spanning_tree": mst_tree, "ConnectionPlanner._route_mst_edge": route_edge, "opaque.get_placement": get_plc,
+          "LayoutPlan.get_placement": get_plc, "ConnectionPlanner._get_connection_side": "skip", "ConnectionPlanner.get_network_id_for_edge": "skip", "opaque.info": "skip"},
+    dynamic_types={"self": {"_edge_wire_colors": ty.TConcrete({("X", "Y", "signal-A"): "green", ("Q", "R", "signal-B"): "green"}),
+                            "relay_network": ty.TObj("RelayNetwork", only=("RelayNetwork",)), "layout_plan": ty.TObj("LayoutPlan", only=("LayoutPlan",)),
+                            "diagnostics": ty.TOpaque("diag")},
+                   "self.relay_network": {"span_limit": ty.TConcrete(9.0)}},
+    properties=("C10", "C01"), min_obligations=1, no_replay=True, note="concrete scenario S -> {X, Y}, hop X-Y already green",
+)
+CONTRACTS += [mst_fanout, mst_tree, route_edge, get_plc]
